@@ -55,7 +55,7 @@ F_NULL = "C05-null-non-optional"
 F_LIT = "C05-literal-int-accepts-bool"
 F_DICT = "C05-dict-item-dotted-mapping"
 F_CLASH = "C05-clash-named-argument"
-CLASH_HINTS = ("enum", "dictint", "any")
+CLASH_HINTS = ("enum", "dictint", "any", "tupint", "tupvar")   # value converted by _check_value_key, or a dict
 
 warnings.simplefilter("ignore")
 
@@ -74,24 +74,25 @@ LOOKALIKE = ["1", "true", "null", "1e3", "0123", "[1]", "{a: 1}", " padded ", "a
 LIT_MEMBERS = ["a", "b", "1", "true", "null", " x ", "[1]"]
 NAMES = ["a", "b", "c", "x", "y", "lr", "n_1", "opt", "items", "keys", "Ab", "v2", "values", "get"]
 GROUP_PATHS = ["g", "h", "g.s", "model"]
-HINTS = ["int", "int", "bool", "str", "str", "optint", "listint", "dictint", "lit", "enum", "posint", "liststr", "any", "litint"]
+HINTS = ["int", "int", "bool", "str", "str", "optint", "listint", "dictint", "lit", "enum", "posint", "liststr", "any", "litint", "tupint", "tupvar"]
 RAW_HINTS = {"str", "lit", "enum"}           # option / variable text is the value
 INT_POOL = [0, 1, -1, 7, -5, 123, 10, 2**31, -(2**63), 10**20, 99]
 DICT_KEYS = ["a", "b", "b c", "1", "true", "null", "k_2", "A"]
 
 
 def hint_type(h):
-    from typing import Any, Dict, List, Literal, Optional
+    from typing import Any, Dict, List, Literal, Optional, Tuple
 
     from jsonargparse.typing import PositiveInt
 
     return {"int": int, "bool": bool, "str": str, "optint": Optional[int], "listint": List[int], "dictint": Dict[str, int],
             "lit": Literal[tuple(LIT_MEMBERS)], "enum": Color, "posint": PositiveInt, "liststr": List[str], "any": Any,
-            "litint": Literal[1, 2]}[h]
+            "litint": Literal[1, 2], "tupint": Tuple[int, int], "tupvar": Tuple[int, ...]}[h]
 
 
 DEFAULTS = {"int": [0, 7], "bool": [False, True], "str": ["x", "dflt"], "optint": [None, 3], "listint": [[], [9]], "dictint": [{}, {"z": 0}],
-            "lit": ["a"], "enum": ["red"], "posint": [1, 4], "liststr": [[], ["d"]], "any": [None, 0], "litint": [1]}
+            "lit": ["a"], "enum": ["red"], "posint": [1, 4], "liststr": [[], ["d"]], "any": [None, 0], "litint": [1],
+            "tupint": [[0, 0], [3, -4]], "tupvar": [[], [8]]}      # given to add_argument as tuples (normal form)
 
 
 def gen_default(rng, h):
@@ -124,6 +125,10 @@ def gen_value(rng, h):
         return rng.choice([1, 2])
     if h == "any":
         return rng.choice([None, True, False, 0, -3, 12, [1, 2], [], [True, None], {"a": 1}, {}])
+    if h == "tupint":
+        return [rng.choice(INT_POOL), rng.choice(INT_POOL)]
+    if h == "tupvar":
+        return [rng.choice(INT_POOL) for _ in range(rng.choice([0, 1, 2, 3]))]
     raise MachineryError("hint " + h)
 
 
@@ -139,6 +144,8 @@ WRONG = {
     "lit": ["zzz", "A", "x"],
     "enum": ["purple", "RED", "1"],
     "litint": [3, 0, "abc", [1], False],
+    "tupint": [[1], [1, 2, 3], [1, "a"], "abc", 5, [True, 1]],
+    "tupvar": [[1, "a"], "abc", 5, {"a": 1}, [None]],
 }
 
 
@@ -191,7 +198,7 @@ def gen_case(rng):
             settings.insert(rng.randint(0, len(settings)), [key, rng.choice([1, "s", True])])
             kind = "unknown"
     elif r < 0.25 and settings:
-        cand = [i for i, a in enumerate(chosen) if a["hint"] in ("int", "bool", "listint", "dictint", "posint", "liststr")]
+        cand = [i for i, a in enumerate(chosen) if a["hint"] in ("int", "bool", "listint", "dictint", "posint", "liststr", "tupint", "tupvar")]
         if cand:
             i = rng.choice(cand)
             settings[i][1] = None
@@ -233,6 +240,8 @@ def build(spec, mode="yaml"):
         d = a["default"]
         if a["hint"] == "enum":
             d = Color[d]
+        elif a["hint"] in ("tupint", "tupvar"):
+            d = tuple(d)
         target = grp if grp is not None and a["key"].split(".")[0] == spec["group"] else p
         target.add_argument("--" + a["key"], type=hint_type(a["hint"]), default=d)
     return p
@@ -529,7 +538,7 @@ def known_signature(case, outs):
     spec, settings = case["spec"], case["settings"]
     ran = {ch for ch, o in outs.items() if "skip" not in o}
     # exactly one offending setting, everything else valid
-    nulls = [(k, v) for k, v in settings if v is None and hint_of(spec, k) in ("int", "bool", "listint", "dictint", "posint", "liststr", "lit", "enum", "litint")]
+    nulls = [(k, v) for k, v in settings if v is None and hint_of(spec, k) in ("int", "bool", "listint", "dictint", "posint", "liststr", "lit", "enum", "litint", "tupint", "tupvar")]
     if len(nulls) == 1 and rejecting == (TEXT_CH & ran):
         if value_at(accepted, nulls[0][0]) == ["0"]:
             return F_NULL
@@ -653,7 +662,7 @@ def wire_ns_of_canon(c):
         return {"n": [[k, wire_ns_of_canon(v)] for k, v in c[1]]}
     if t == "D":
         return {"d": [[k, wire_ns_of_canon(v)] for k, v in c[1]]}
-    if t == "L":
+    if t in ("L", "T"):      # the model has no type adapter: a Tuple argument's value is the list of its items
         return [wire_ns_of_canon(v) for v in c[1]]
     if t == "0":
         return None
@@ -996,7 +1005,7 @@ def correspond_channels(ctx: Ctx, cases_outs):
 def run(ctx: Ctx):
     repo_python_path()
     ctx.rule = ("generated parsers (2-5 flat or dotted arguments of depth 1-3 over int, PositiveInt, bool, str, Optional[int], List[int], List[str], "
-                "Dict[str,int], Literal[strings], Literal[ints], Enum, Any; optional argument group; env_prefix variants) x settings (subset of the "
+                "Dict[str,int], Literal[strings], Literal[ints], Enum, Any, Tuple[int,int], Tuple[int,...]; optional argument group; env_prefix variants) x settings (subset of the "
                 "arguments in random order; non-string values anywhere, strings only at str-typed positions from a look-alike-heavy alphabet; "
                 "invalid: wrong type at one key, unknown key) x 13 channels on fresh parsers; one evaluation = one channel run or one model/real "
                 "comparison; non-trivial = a case where >= 2 channels ran and either every channel accepted a configuration different from the "
